@@ -703,9 +703,23 @@ def check_modules(repo, col, shorts, rule="E-AXIS"):
     for ms in shorts:
         m = repo.module(ms)
         n = 0
+        seeded = 0
         for fn in m.functions.values():
             n += AxisChecker(fn, col, rule).check()
+            names = {x.id for x in walk_local(fn.node)
+                     if isinstance(x, ast.Name)} | set(fn.params)
+            seeded += sum(1 for nm in names if seed_role(nm)
+                          or nm in XYZ_VECTORS or nm in CRS_VECTORS)
         counts[ms] = n
+        # axis typing reads the roles off the project's naming convention
+        # (xmin, y_chunk_idx, chunk_size, ...).  A module that does not use
+        # those names gives the typing nothing to work on: say so instead of
+        # passing (or tripping the vacuity floor) silently.
+        if seeded < 3:
+            col.add(rule + ".names", "%s:module" % ms, "axis-role names", True,
+                    "no local names of %s follow the x/y/z naming convention "
+                    "the axis typing is seeded from: its obligations do not "
+                    "apply to this spelling" % ms, undecided=True)
     return counts
 
 
